@@ -309,7 +309,7 @@ def run(tier, replay=None):
                               % (K, o["variant"], r["stage"], r["detail"], o["text"]), o["dir"], meta)
         res.sample({"family": "probe", "kind": K, "variant": o["variant"], "program": o["text"], "result": r["status"], "stage": r["stage"]}, limit=3)
     failing = sorted(k for k, s in kind_status.items() if s["fail"])
-    stale = sorted(k for k in listed if k in kind_status and not kind_status[k]["fail"])
+    stale = sorted(k for k in listed if k in kind_status and not kind_status[k]["fail"] and not kind_status[k]["rejected"] and kind_status[k]["pass"])
     for k in stale:
         print("NOTE: property=C15 kind=%s is listed in known_findings.json but its probes pass now" % k, flush=True)
     # ---- (b) trees, (c) compositions ------------------------------------------------------------------
